@@ -226,62 +226,66 @@ theorem depth_continuous' (o : Ordered σ) (j : JunctionsAgree σ) : Continuous 
   · tauto
   · tauto
 
-/-! ### boundary stripping of the spline groove -/
+/-! ### boundary stripping of the spline groove
 
-theorem dropFaceRun_suffix : ∀ l : List (ℝ × ℝ), ∃ s, l = s ++ dropFaceRun l
+Everything here is generic in the face predicate `f : ℝ → Bool` ("this ordinate lies on the face line"); the generated
+model instantiates it with `spline_face.onFace pts` (the face test the translator read, with its tolerance evaluated on the
+polyline as given). -/
+
+theorem dropFaceRun_suffix (f : ℝ → Bool) : ∀ l : List (ℝ × ℝ), ∃ s, l = s ++ dropFaceRun f l
   | [] => ⟨[], rfl⟩
   | [p] => ⟨[], rfl⟩
   | p :: q :: rest => by
     simp only [dropFaceRun]
     split_ifs
-    · obtain ⟨s, hs⟩ := dropFaceRun_suffix (q :: rest)
+    · obtain ⟨s, hs⟩ := dropFaceRun_suffix f (q :: rest)
       exact ⟨p :: s, by rw [List.cons_append, ← hs]⟩
     · exact ⟨[], rfl⟩
 
-theorem dropFaceRun_ne_nil : ∀ l : List (ℝ × ℝ), l ≠ [] → dropFaceRun l ≠ []
+theorem dropFaceRun_ne_nil (f : ℝ → Bool) : ∀ l : List (ℝ × ℝ), l ≠ [] → dropFaceRun f l ≠ []
   | [], h => absurd rfl h
   | [p], _ => by simp [dropFaceRun]
   | p :: q :: rest, _ => by
     simp only [dropFaceRun]
     split_ifs
-    · exact dropFaceRun_ne_nil (q :: rest) (by simp)
+    · exact dropFaceRun_ne_nil f (q :: rest) (by simp)
     · simp
 
-theorem dropFaceRun_getLast (l : List (ℝ × ℝ)) : (dropFaceRun l).getLast? = l.getLast? := by
+theorem dropFaceRun_getLast (f : ℝ → Bool) (l : List (ℝ × ℝ)) : (dropFaceRun f l).getLast? = l.getLast? := by
   rcases l with _ | ⟨a, l⟩
   · rfl
-  · obtain ⟨s, hs⟩ := dropFaceRun_suffix (a :: l)
+  · obtain ⟨s, hs⟩ := dropFaceRun_suffix f (a :: l)
     conv_rhs => rw [hs]
-    rw [List.getLast?_append_of_ne_nil _ (dropFaceRun_ne_nil _ (by simp))]
+    rw [List.getLast?_append_of_ne_nil _ (dropFaceRun_ne_nil f _ (by simp))]
 
 /-- a vertex off the face line survives, provided the first vertex lies on the face line -/
-theorem dropFaceRun_mem : ∀ (l : List (ℝ × ℝ)), (∀ a ∈ l.head?, isclose a.2 (PyNum.nat 0 : ℝ) = true) →
-    ∀ p ∈ l, isclose p.2 (PyNum.nat 0 : ℝ) = false → p ∈ dropFaceRun l
+theorem dropFaceRun_mem (f : ℝ → Bool) : ∀ (l : List (ℝ × ℝ)), (∀ a ∈ l.head?, f a.2 = true) →
+    ∀ p ∈ l, f p.2 = false → p ∈ dropFaceRun f l
   | [], _, p, hp, _ => by simp at hp
   | [a], _, p, hp, _ => by simpa [dropFaceRun] using hp
   | a :: q :: rest, hh, p, hp, hc => by
     simp only [dropFaceRun]
     split_ifs with hq
-    · have ha : isclose a.2 (PyNum.nat 0 : ℝ) = true := hh a (by simp)
+    · have ha : f a.2 = true := hh a (by simp)
       rcases List.mem_cons.mp hp with rfl | hp'
       · rw [ha] at hc; exact absurd hc (by simp)
-      · exact dropFaceRun_mem (q :: rest) (by intro b hb; simp at hb; subst hb; exact hq) p hp' hc
+      · exact dropFaceRun_mem f (q :: rest) (by intro b hb; simp at hb; subst hb; exact hq) p hp' hc
     · exact hp
 
-theorem stripFaceRuns_spec (pts : List (ℝ × ℝ)) (hacc : splineAccepts pts = true) :
-    (∃ s t, pts = s ++ stripFaceRuns pts ++ t)
-      ∧ ∀ p ∈ pts, isclose p.2 (PyNum.nat 0 : ℝ) = false → p ∈ stripFaceRuns pts := by
+theorem stripFaceRuns_spec (f : ℝ → Bool) (pts : List (ℝ × ℝ)) (hacc : splineAccepts f pts = true) :
+    (∃ s t, pts = s ++ stripFaceRuns f pts ++ t)
+      ∧ ∀ p ∈ pts, f p.2 = false → p ∈ stripFaceRuns f pts := by
   unfold stripFaceRuns
   split_ifs with hall
   · exact ⟨⟨[], [], by simp⟩, fun p hp _ => hp⟩
-  · have hhead : ∀ a ∈ pts.head?, isclose a.2 (PyNum.nat 0 : ℝ) = true := by
+  · have hhead : ∀ a ∈ pts.head?, f a.2 = true := by
       intro a ha
       rcases pts with _ | ⟨b, t⟩
       · simp at ha
       · simp only [List.head?_cons, Option.mem_def, Option.some.injEq] at ha; subst ha
         simp only [splineAccepts, col, List.map_cons, List.headD_cons, Bool.and_eq_true] at hacc
         simpa using hacc.1
-    have hlast : ∀ a ∈ pts.getLast?, isclose a.2 (PyNum.nat 0 : ℝ) = true := by
+    have hlast : ∀ a ∈ pts.getLast?, f a.2 = true := by
       intro a ha
       simp only [splineAccepts, Bool.and_eq_true] at hacc
       have h2 := hacc.2
@@ -289,20 +293,104 @@ theorem stripFaceRuns_spec (pts : List (ℝ × ℝ)) (hacc : splineAccepts pts =
       simp only [Option.mem_def] at ha
       rw [ha] at h2
       simpa using h2
-    obtain ⟨s, hs⟩ := dropFaceRun_suffix pts
-    obtain ⟨s', hs'⟩ := dropFaceRun_suffix (dropFaceRun pts).reverse
+    obtain ⟨s, hs⟩ := dropFaceRun_suffix f pts
+    obtain ⟨s', hs'⟩ := dropFaceRun_suffix f (dropFaceRun f pts).reverse
     constructor
     · refine ⟨s, s'.reverse, ?_⟩
-      have : dropFaceRun pts = (dropFaceRun (dropFaceRun pts).reverse).reverse ++ s'.reverse := by
+      have : dropFaceRun f pts = (dropFaceRun f (dropFaceRun f pts).reverse).reverse ++ s'.reverse := by
         rw [← List.reverse_append, ← hs', List.reverse_reverse]
       rw [List.append_assoc, ← this, ← hs]
     · intro p hp hc
-      have h1 := dropFaceRun_mem pts hhead p hp hc
-      have h2 := dropFaceRun_mem (dropFaceRun pts).reverse (by
+      have h1 := dropFaceRun_mem f pts hhead p hp hc
+      have h2 := dropFaceRun_mem f (dropFaceRun f pts).reverse (by
         intro a ha
         rw [List.head?_reverse, dropFaceRun_getLast] at ha
         exact hlast a ha) p (List.mem_reverse.mpr h1) hc
       exact List.mem_reverse.mpr h2
+
+/-! ### the face test -/
+
+/-- both kinds of face test say `|y| ≤ tolerance`, the tolerance being `FaceTest.tol` of the polyline as given
+    (`np.isclose(y, 0)`: `|y − 0| ≤ 1e-8 + 1e-5·|0|`) -/
+theorem onFace_iff (ft : FaceTest) (pts : List (ℝ × ℝ)) (y : ℝ) : ft.onFace pts y = true ↔ |y| ≤ ft.tol pts := by
+  cases ft with
+  | isclose =>
+    simp only [FaceTest.onFace, FaceTest.tol, isclose, PyNum.le, PyNum.dec_real, PyNum.abs_real, PyNum.nat_real,
+      decide_eq_true_eq]
+    norm_num
+  | within t => simp only [FaceTest.onFace, FaceTest.tol, PyNum.le, PyNum.abs_real, decide_eq_true_eq]
+
+/-- the larger of the two extents of a polyline -/
+noncomputable def extent (pts : List (ℝ × ℝ)) : ℝ :=
+  max (maxL (col 0 pts) - minL (col 0 pts)) (maxL (col 1 pts) - minL (col 1 pts))
+
+theorem extent_nonneg {pts : List (ℝ × ℝ)} (h : pts ≠ []) : 0 ≤ extent pts := by
+  have hne := col_ne_nil 0 h
+  have h1 := (minL_spec _ hne).2 _ (maxL_spec _ hne).1
+  exact le_max_of_le_left (by linarith)
+
+theorem maxL_pair (a b : ℝ) : maxL [a, b] = max a b := by
+  simp only [maxL, PyNum.lt]
+  by_cases h : a < b
+  · simp [h, max_eq_right (le_of_lt h)]
+  · simp [h, max_eq_left (not_lt.mp h)]
+
+/-- what a face test has to be for the instances below: its tolerance is non-negative (an ordinate that IS 0 lies on the face
+    line) and at most `max 1e-8 (1e-9 · extent)` (an ordinate beyond that never does) -/
+def FaceBounded (ft : FaceTest) : Prop :=
+  ∀ pts : List (ℝ × ℝ), pts ≠ [] → 0 ≤ ft.tol pts ∧ ft.tol pts ≤ max (1 / 10 ^ 8) (1 / 10 ^ 9 * extent pts)
+
+theorem faceBounded_isclose : FaceBounded .isclose := by
+  intro pts _
+  simp only [FaceTest.tol, PyNum.dec_real]
+  exact ⟨by positivity, le_max_of_le_left (by norm_num)⟩
+
+/-- `1e-9 * np.max(np.ptp(contour_points, axis=0))` -/
+theorem faceBounded_within_extent :
+    FaceBounded (.within (.mul (.dec 1 9) (.max (.sub (.colMax 0) (.colMin 0)) (.sub (.colMax 1) (.colMin 1))))) := by
+  intro pts h
+  have he : (FaceTest.within (.mul (.dec 1 9) (.max (.sub (.colMax 0) (.colMin 0))
+      (.sub (.colMax 1) (.colMin 1))))).tol pts = 1 / 10 ^ 9 * extent pts := by
+    simp only [FaceTest.tol, LTerm.eval, PyNum.dec_real, maxL_pair, extent]; norm_num
+  rw [he]
+  exact ⟨mul_nonneg (by positivity) (extent_nonneg h), le_max_right _ _⟩
+
+/-- a polyline inside the square `|x|, |y| ≤ B` has an extent of at most `2B` -/
+theorem extent_le {pts : List (ℝ × ℝ)} (h : pts ≠ []) (B : ℝ) (hB : ∀ p ∈ pts, |p.1| ≤ B ∧ |p.2| ≤ B) :
+    extent pts ≤ 2 * B := by
+  have bound : ∀ k, maxL (col k pts) - minL (col k pts) ≤ 2 * B := by
+    intro k
+    have hne := col_ne_nil k h
+    obtain ⟨hM, _⟩ := maxL_spec _ hne
+    obtain ⟨hm, _⟩ := minL_spec _ hne
+    have mem : ∀ v ∈ col k pts, |v| ≤ B := by
+      intro v hv
+      simp only [col, List.mem_map] at hv
+      obtain ⟨p, hp, rfl⟩ := hv
+      split_ifs
+      · exact (hB p hp).1
+      · exact (hB p hp).2
+    have a := abs_le.mp (mem _ hM)
+    have b := abs_le.mp (mem _ hm)
+    linarith
+  exact max_le (bound 0) (bound 1)
+
+/-- for a bounded face test on a polyline inside `|x|, |y| ≤ B`, `B ≤ 10⁸`: the ordinate 0 is on the face line, an ordinate of at least 1 is not -/
+theorem faceBounded_zero {ft : FaceTest} (hb : FaceBounded ft) {pts : List (ℝ × ℝ)} (h : pts ≠ []) :
+    ft.onFace pts 0 = true := by
+  rw [onFace_iff, abs_zero]; exact (hb pts h).1
+
+theorem faceBounded_off {ft : FaceTest} (hb : FaceBounded ft) {pts : List (ℝ × ℝ)} (h : pts ≠ []) (B : ℝ)
+    (hB : ∀ p ∈ pts, |p.1| ≤ B ∧ |p.2| ≤ B) (hB8 : B ≤ 10 ^ 8) (y : ℝ) (hy : 1 ≤ y) : ft.onFace pts y = false := by
+  rw [Bool.eq_false_iff, Ne, onFace_iff, not_le, abs_of_pos (by linarith)]
+  have h2 := (hb pts h).2
+  have h3 := extent_le h B hB
+  have : max ((1 : ℝ) / 10 ^ 8) (1 / 10 ^ 9 * extent pts) < 1 := by
+    apply max_lt (by norm_num)
+    have : (1 : ℝ) / 10 ^ 9 * extent pts ≤ 1 / 10 ^ 9 * (2 * 10 ^ 8) :=
+      mul_le_mul_of_nonneg_left (by linarith) (by positivity)
+    linarith [show (1 : ℝ) / 10 ^ 9 * (2 * 10 ^ 8) < 1 by norm_num]
+  linarith
 
 /-! ### concrete instances for the non-vacuity examples -/
 
@@ -340,25 +428,28 @@ theorem σ0_params : Params σ0 := by
 noncomputable def P0 : List (ℝ × ℝ) := [(-8, 0), (-4, 4), (4, 4), (8, 0)]
 noncomputable def P1 : List (ℝ × ℝ) := [(-8, 0), (-7, 1), (-6, 2), (-4, 4), (4, 4), (8, 0)]
 
-theorem isclose_zero_zero : isclose (0 : ℝ) 0 = true := by
-  simp [isclose, PyNum.le, PyNum.dec_real]
-theorem isclose_pos (y : ℝ) (h : (1 : ℝ) / 10 ^ 8 < y) : isclose y (0 : ℝ) = false := by
-  simp only [isclose, PyNum.le, PyNum.dec_real, PyNum.abs_real, sub_zero, abs_zero,
-    mul_zero, add_zero, decide_eq_false_iff_not, not_le]
-  rw [abs_of_pos (lt_trans (by positivity) h)]; simpa using h
+theorem P0_bound : ∀ p ∈ P0, |p.1| ≤ (8 : ℝ) ∧ |p.2| ≤ (8 : ℝ) := by
+  intro p hp; simp [P0] at hp; rcases hp with rfl | rfl | rfl | rfl <;> norm_num [abs_le]
+theorem P1_bound : ∀ p ∈ P1, |p.1| ≤ (8 : ℝ) ∧ |p.2| ≤ (8 : ℝ) := by
+  intro p hp; simp [P1] at hp; rcases hp with rfl | rfl | rfl | rfl | rfl | rfl <;> norm_num [abs_le]
 
-theorem strip_P0 : strip .faceRuns P0 = P0 := by
-  simp [strip, stripFaceRuns, dropFaceRun, P0, col, isclose_zero_zero, isclose_pos 4 (by norm_num)]
+/-- stripping the face runs of `P0` / `P1` with ANY face predicate that puts 0 on the face line and 1, 2, 4 off it -/
+theorem strip_P0 (f : ℝ → Bool) (h0 : f 0 = true) (h4 : f 4 = false) : strip .faceRuns f P0 = P0 := by
+  simp [strip, stripFaceRuns, dropFaceRun, P0, col, h0, h4]
 
-theorem strip_P1 : strip .faceRuns P1 = P1 := by
-  simp [strip, stripFaceRuns, dropFaceRun, P1, col, isclose_zero_zero, isclose_pos 1 (by norm_num),
-    isclose_pos 2 (by norm_num), isclose_pos 4 (by norm_num)]
+theorem strip_P1 (f : ℝ → Bool) (h0 : f 0 = true) (h1 : f 1 = false) (h2 : f 2 = false) (h4 : f 4 = false) :
+    strip .faceRuns f P1 = P1 := by
+  simp [strip, stripFaceRuns, dropFaceRun, P1, col, h0, h1, h2, h4]
 
 /-- two V-shaped grooves side by side -/
 noncomputable def twinV : List (ℝ × ℝ) := [(0, 0), (1, 1), (2, 0), (3, 1), (4, 0)]
 
-theorem stripBoth_twinV : strip .bothNeighbours twinV = [(0, 0), (2, 0), (4, 0)] := by
-  simp [strip, stripBoth, twinV, col, rollR, rollL, isclose_zero_zero, isclose_pos 1 (by norm_num)]
+theorem twinV_bound : ∀ p ∈ twinV, |p.1| ≤ (4 : ℝ) ∧ |p.2| ≤ (4 : ℝ) := by
+  intro p hp; simp [twinV] at hp; rcases hp with rfl | rfl | rfl | rfl | rfl <;> norm_num [abs_le]
+
+theorem stripBoth_twinV (f : ℝ → Bool) (h0 : f 0 = true) (h1 : f 1 = false) :
+    strip .bothNeighbours f twinV = [(0, 0), (2, 0), (4, 0)] := by
+  simp [strip, stripBoth, twinV, col, rollR, rollL, h0, h1]
 
 theorem P0_refines_P1 : Refines OnChord P0 P1 := by
   refine .step _ [(-8, 0), (-6, 2), (-4, 4), (4, 4), (8, 0)] _ (.step _ _ _ (.refl _) ?_) ?_
